@@ -10,6 +10,9 @@ def run(ctx):
                   env={"VERIF_STAGE": "c12" + suffix})
     return standard(ctx, "C12", ["model/C12_run.vo"], stages,
                     rule="random service sets (1-32 services, 27-char/short/long uuids, shared 15-char suffixes), locators with 0-4 "
-                         "hints; distinct by hash of the case term; non-trivial = at least 2 local services",
+                         "hints (cluster form, gateway form known/unknown, uuids of local incl. read-only services); half of the cases take "
+                         "their roots from 1-3 keep_services lists (1/4 of the services read-only; LoadKeepServicesFromJSON or the "
+                         "discoverServices poller with a stub API transport), the others from SetServiceRoots; distinct by hash of the "
+                         "case term; non-trivial = at least 2 local services",
                     assumptions=["MD5 is computed by the Gallina implementation lib/Md5.v (validated by this correspondence: every weight comparison depends on it)",
                                  "with equal weights the order is unspecified: such cases are judged by the relation only"])
